@@ -280,6 +280,14 @@ func parserTokenEntryPoints(cur *string, tk []token.Token, pos []parser.TokenPos
 		stmts, _ := p.ParseWithRecovery(cp())
 		consumeStatements(cur, stmts, &st.trees)
 	})
+	guard(cur, "parser.ParseMultiWithRecovery", func() {
+		res := parser.ParseMultiWithRecovery(cp())
+		if res != nil {
+			consumeStatements(cur, res.Statements, &st.trees)
+			res.Release()
+			res.Release() // documented as the caller's duty; a second call must be harmless
+		}
+	})
 	guard(cur, "Parser.ParseWithPositions", func() {
 		p := parser.NewParser(popts(dialect, strict)...)
 		defer p.Release()
